@@ -311,6 +311,9 @@ def main(run, tier):
     run.floor = 300
     from . import parsefwd
     parsefwd.add(run, tier, positions=True)
+    # comments are printed by the Attr rules through the shared walk: their contracts (lists of any length, every kind of value)
+    from . import printfwd
+    printfwd.add(run, tier)
     from . import attrobl
     import contracts.frames as _fr
     attrobl.frame_obligations(run, _fr.COMMENT_CHANNEL)
